@@ -73,39 +73,49 @@ Definition grant (sc : script) (ve : venv) : account -> asset -> option Z := gra
 Definition snapshot_of (s : store) (b : balances) : Prop :=
   forall a x z, bal_get b a x = Some z -> z = if N.eqb a world then 0 else store_balance s a x.
 
-(* the (account, asset) pairs the `save` statements of a script name *)
-Definition save_pair (ve : venv) (st : stmt) : list (account * asset) :=
-  match st with
-  | StSave (SendAll ae) acc =>
-      match eval_asset ve ae, eval_account ve acc with SOk s, SOk a => [(a, s)] | _, _ => [] end
-  | StSave (SendMon e) acc =>
-      match eval_monetary ve e, eval_account ve acc with SOk (s, _), SOk a => [(a, s)] | _, _ => [] end
-  | _ => []
-  end.
-Definition save_pairs (ve : venv) (sc : script) : list (account * asset) := flat_map (save_pair ve) (s_stmts sc).
-Definition pair_tracked (b : balances) (a : account) (s : asset) : bool :=
-  match bal_get b a s with Some _ => true | None => false end.
-(* no `save` creates a balance entry: it names a pair the machine already tracks, or an account it does not track *)
-Definition save_closed (sc : script) (ve : venv) (b : balances) : bool :=
-  forallb (fun p => negb (bal_has_account b (fst p)) || pair_tracked b (fst p) (snd p)) (save_pairs ve sc).
-
-(* ---- the semantics before the repair "fix: numscript: 'save [A *]' ..." (0ffb9a4) ---------------------- *)
-(* OP_SAVE with an asset set the balance to 0 whatever its sign *)
-Definition sem_save_legacy (ve : venv) (m : send_amount) (acc : expr) (st : sstate) : sres sstate :=
+(* ---- the semantics before the two repairs of `save` ---------------------------------------------------- *)
+(* [sem_save_v0]: before "fix: numscript: 'save [A *]' ..." (0ffb9a4): OP_SAVE with an asset set the balance to 0
+   whatever its sign, and both forms wrote an entry for any asset of an account present in the table.
+   [sem_save_v1]: between 0ffb9a4 and 2ef37df ("save must not create a balance entry for an untracked asset"):
+   the sign is checked, but an entry is still created for an untracked asset of a tracked account. *)
+Definition sem_save_v0 (ve : venv) (m : send_amount) (acc : expr) (st : sstate) : sres sstate :=
   match m with
   | SendAll ae =>
       sdo s <- eval_asset ve ae;
       sdo a <- eval_account ve acc;
       if bal_has_account (s_bals st) a then SOk (with_bals st (bal_set (s_bals st) a s 0)) else SOk st
-  | SendMon _ => sem_save ve m acc st
+  | SendMon e =>
+      sdo '(s, amt) <- eval_monetary ve e;
+      sdo a <- eval_account ve acc;
+      if amt <? 0 then SErr EOtherRun
+      else if bal_has_account (s_bals st) a then
+        SOk (with_bals st (bal_set (s_bals st) a s (mbz (s_bals st) a s - amt)))
+      else SOk st
   end.
-Definition sem_stmt_legacy (ve : venv) (s : stmt) (st : sstate) : sres sstate :=
-  match s with StSave m acc => sem_save_legacy ve m acc st | _ => sem_stmt ve s st end.
-Fixpoint sem_stmts_legacy (ve : venv) (l : list stmt) (st : sstate) : sres sstate :=
+Definition sem_save_v1 (ve : venv) (m : send_amount) (acc : expr) (st : sstate) : sres sstate :=
+  match m with
+  | SendAll ae =>
+      sdo s <- eval_asset ve ae;
+      sdo a <- eval_account ve acc;
+      if bal_has_account (s_bals st) a then
+        match bal_get (s_bals st) a s with
+        | Some z => if 0 <? z then SOk (with_bals st (bal_set (s_bals st) a s 0)) else SOk st
+        | None => SOk (with_bals st (bal_set (s_bals st) a s 0))
+        end
+      else SOk st
+  | SendMon _ => sem_save_v0 ve m acc st
+  end.
+
+(* [sem] with another rule for `save` *)
+Definition save_rule := venv -> send_amount -> expr -> sstate -> sres sstate.
+Definition sem_stmt_with (sv : save_rule) (ve : venv) (s : stmt) (st : sstate) : sres sstate :=
+  match s with StSave m acc => sv ve m acc st | _ => sem_stmt ve s st end.
+Fixpoint sem_stmts_with (sv : save_rule) (ve : venv) (l : list stmt) (st : sstate) : sres sstate :=
   match l with
   | [] => SOk st
-  | s :: r => sdo st1 <- sem_stmt_legacy ve s st; sem_stmts_legacy ve r st1
+  | s :: r => sdo st1 <- sem_stmt_with sv ve s st; sem_stmts_with sv ve r st1
   end.
-Definition sem_legacy (sc : script) (ve : venv) (b : balances) (extra_meta : list str) : sres result :=
-  sdo st <- sem_stmts_legacy ve (s_stmts sc) {| s_bals := b; s_posts := []; s_txmeta := []; s_accmeta := []; s_printed := [] |};
+Definition sem_with (sv : save_rule) (sc : script) (ve : venv) (b : balances) (extra_meta : list str) : sres result :=
+  sdo st <- sem_stmts_with sv ve (s_stmts sc)
+              {| s_bals := b; s_posts := []; s_txmeta := []; s_accmeta := []; s_printed := [] |};
   sem_finish st extra_meta.
